@@ -152,18 +152,32 @@ class StratEval:
     def localfn(self, node, env, a):
         x = node.args.args[0].arg
         env = dict(env)
-        for s in node.body:
-            if isinstance(s, ast.Expr) and isinstance(s.value, ast.Constant):
-                continue
-            if isinstance(s, ast.Assign) and len(s.targets) == 1 and isinstance(s.targets[0], ast.Name):
-                try:
-                    env[s.targets[0].id] = ("elpred", self.pexpr(s.value, x, env, a))
-                except Bail:
-                    env[s.targets[0].id] = self.ev(s.value, env, a)
-                continue
-            if isinstance(s, ast.Return) and s.value is not None:
-                return ("pred", self.pexpr(s.value, x, env, a))
-            raise Bail(f"{self.fn.name}: unsupported statement in local predicate `{txt(s)[:50]}`")
+
+        class _R(Exception):
+            def __init__(self, v):
+                self.v = v
+
+        def block(stmts):
+            for s in stmts:
+                if isinstance(s, ast.Expr) and isinstance(s.value, ast.Constant):
+                    continue
+                if isinstance(s, ast.Assign) and len(s.targets) == 1 and isinstance(s.targets[0], ast.Name):
+                    try:
+                        env[s.targets[0].id] = ("elpred", self.pexpr(s.value, x, env, a))
+                    except Bail:
+                        env[s.targets[0].id] = self.ev(s.value, env, a)
+                    continue
+                if isinstance(s, ast.If):
+                    block(s.body if self.cond(s.test, env, a) else s.orelse)
+                    continue
+                if isinstance(s, ast.Return) and s.value is not None:
+                    raise _R(("pred", self.pexpr(s.value, x, env, a)))
+                raise Bail(f"{self.fn.name}: unsupported statement in local predicate `{txt(s)[:50]}`")
+
+        try:
+            block(node.body)
+        except _R as r:
+            return r.v
         raise Bail(f"{self.fn.name}: local predicate {node.name} returns nothing")
 
     def ev(self, e, env, a):
